@@ -347,9 +347,36 @@ class HeapOps(HeapExecutor):
                         out.extend(self.truthy(r, o2))
                     else:
                         out.append((o2, None))
+            elif cname in ('BaseSection', 'BaseDocument') and ci.lookup_method('__iter__') is not None:
+                # no __contains__: Python iterates (__iter__) and compares with `is` / `==`.
+                # BaseSection.__iter__ yields the child sections then the properties,
+                # Sectionable.__iter__ the child sections (checked against the source below).
+                self.check_iter_shape(ci)
+                lists = [Select(self.H(o, '_sections'), self.rv(container))]
+                if cname == 'BaseSection':
+                    lists.append(Select(self.H(o, '_props'), self.rv(container)))
+                alts = []
+                for lv in lists:
+                    l = Acc('rv', lv)
+                    j = bvar(fresh_name('j'), INT)
+                    it = self.list_item(l, j, o)
+                    same = Eq(it, item)
+                    deep = And(Is('VRef', item), Eq(cls_of(self.rv(it)), cls_of(self.rv(item))),
+                               App('deq_h', BOOL, o.heap.get('hid', intlit(0)), it, item))
+                    alts.append(Exists([j], And(Le(intlit(0), j), Lt(j, self.list_len(l, o)), Or(same, deep))))
+                out.append((o, Or(*alts)))
             else:
                 raise Unsupported('membership in %s without __contains__ at line %s' % (cname, node.lineno))
         return out
+
+    def check_iter_shape(self, ci):
+        """the membership model above is only valid for the __iter__ bodies it was written for"""
+        m = ci.lookup_method('__iter__')
+        src = ast.unparse(m.node)
+        ok = ('self._sections.__iter__()' in src) or \
+             ('for section in self._sections' in src and 'for prop in self._props' in src)
+        if not ok:
+            raise Unsupported('__iter__ of %s has an unexpected shape' % ci.name)
 
     # ------------------------------------------------------------------ equality with user __eq__
     def equals(self, a, b, st, node):
